@@ -180,6 +180,10 @@ func (s *Spec[T]) runImpl(t T) Sexp {
 		to = 10 * time.Second
 	}
 	out := guard(to, func() Sexp { return s.Impl(t) })
+	if out.Head() == "timeout" {
+		// a loaded machine is not a hang: once more, alone, with three times the budget
+		out = guard(3*to, func() Sexp { return s.Impl(t) })
+	}
 	if h := out.Head(); (h == "timeout" || h == "panic") && dbgCount < 3 {
 		dbgCount++
 		cj, _ := json.Marshal(t)
